@@ -467,9 +467,20 @@ C10_RULE = ("fault enumeration: each generated history (C10 op mix incl. generat
 
 
 def check_c10(ctx):
-    bins = {"chk": build_harness("chk"), "rel": build_harness("rel"), "asan": build_harness_asan()}
+    # the events build adds the event-log oracle: a destruction is logged iff it happened, also
+    # when a documented panic interrupts the destroy
+    bins = {"chk": build_harness("chk"), "rel": build_harness("rel"), "asan": build_harness_asan(), "chk-events": build_harness("chk", ("events",))}
     extra = [ctx.replay] if ctx.replay else []
-    nfiles, _ = run_replays(ctx, bins, extra)
+    fixed = [f for f in sorted(glob.glob(os.path.join(VERIF, "replays", "C10", "*.ops"))) + extra if "# fixed scenario" in open(f).read()]
+    if fixed:
+        # fixed scenarios (leaked guards, constructor capacity) are re-run by the c10 subcommand itself
+        for name, b in sorted(bins.items()):
+            p = subprocess.run([b, "c10", "--cases", "0", "--fail-out", os.path.join(VERIF, ".work", "c10-fixed-%d.ops" % os.getpid())], cwd=VERIF, stdout=subprocess.PIPE, stderr=subprocess.STDOUT, text=True)
+            for line in p.stdout.splitlines():
+                if line.startswith("FAIL "):
+                    d = parse_line(line)
+                    report_failure(ctx, d.get("sig", "?"), fixed[0], "[%s] %s" % (name, d.get("msg", "")))
+    nfiles, _ = run_replays(ctx, bins, [f for f in extra if f not in fixed])
     if ctx.replay:
         write_evidence(ctx, "fault_enumeration", {"evaluations": nfiles, "distinct_nontrivial": 2, "rule": "replay of saved inputs only", "samples": [open(ctx.replay).read()]}, HIST_ASSUMPTIONS)
         return
@@ -536,7 +547,7 @@ def check_c10(ctx):
         "points_per_op_and_site": "all when <= K, else K evenly spread incl. first and last; K = 16 (quick) / 64 (thorough)",
         "collateral": tot["collateral"],
         "builds": sorted(bins.keys()),
-        "fixed_scenarios": "with_capacity(2^24 + 1) per archetype panics with 'capacity may not exceed' and builds nothing",
+        "fixed_scenarios": "with_capacity(2^24 + 1) per archetype panics with 'capacity may not exceed' and builds nothing; leaked (mem::forget) shared / mutable guard on every column of every archetype, then destroy at every dense position: whether or not the destroy panics, every entity is fully present or fully absent, iteration and the representation invariant are intact, world drop drops nothing twice",
         "regression_replays": nfiles,
     }
     if ctx.tier == "thorough":
